@@ -98,7 +98,10 @@ def program_job(arg):
         add("cwd=pkgdir", _seg(p, R, "local", sd("cwd2"), chdir=None))
         add("other_location", _seg(p, roots["deep/er/rootB"], "local", sd("loc")))
         add("symlinked_location", _seg(p, os.path.join(td, "linkroot"), "local", sd("sym")))
+        has_loads = any(st["k"] == "load" for f in p["fns"].values() for st in f["stmts"])
         for sk in ("memory", "local_lru", "noop", "dbfs"):
+            if sk == "noop" and has_loads:
+                continue  # the noop store cannot serve a loaded path (its documentation says so)
             add("store=" + sk, _seg(p, R, sk, sd(sk)))
         add("extra_debug_arg_on", _seg(p, R, "local", sd("dbg1"), entry_opts={"dds_extra_debug": True}))
         add("extra_debug_option_off", _seg(p, R, "local", sd("dbg2"), options={"extra_debug": False}))
@@ -187,6 +190,8 @@ def programs_for(tier, seed):
             p["fns"][p["_ids"]["h2"]]["reads"].append([vid, "bare"])
         else:
             p = progs.random_program(rng, "c3r%d" % i)
+            while len(gen.kept_nodes(p)) < 2:
+                p = progs.random_program(rng, "c3r%d" % i)
         ps.append(p)
     return ps
 
